@@ -301,4 +301,450 @@ theorem csum_strict_anti (w : Nat) (m m' : List Nat) (hlen : m.length = m'.lengt
 /-- without the digit bound the statement is false (truncated subtraction) -/
 example : ¬ (csum 4 [4] < csum 4 [3]) := by decide
 
+theorem shift_pad (T : Nat) : (8 - T % 8) % 8 + T = 8 * ((T + 7) / 8) := by omega
+
+/-- `(c·2^sh) / 2^(sh + e) = c / 2^e` -/
+theorem shl_div (c sh e : Nat) : c * 2 ^ sh / 2 ^ (sh + e) = c / 2 ^ e := by
+  rw [Nat.pow_add, ← Nat.div_div_eq_div_mul, Nat.mul_div_cancel _ (Nat.two_pow_pos sh)]
+
+/-- **Algorithm 7 lines 5–7**: the `len₂` checksum digits are the base-`w` digits (most significant
+    first) of `csum`, provided `csum < w^len₂` (which `len₂` is chosen to guarantee) -/
+theorem checksumDigits_eq (p : WP) (msg : List Nat) (hc : csum p.w msg < 2 ^ (p.len2 * p.lgw)) :
+    checksumDigits p msg =
+      (List.range p.len2).map fun j => csum p.w msg / 2 ^ ((p.len2 - 1 - j) * p.lgw) % 2 ^ p.lgw := by
+  unfold checksumDigits
+  simp only []
+  generalize csum p.w msg = c at *
+  have hpad := shift_pad (p.len2 * p.lgw)
+  rw [base2b_eq_spec _ _ _ (by rw [toByte_length]; omega)]
+  unfold base2bSpec
+  simp only []
+  rw [List.take_of_length_le (by rw [toByte_length]; omega)]
+  have hv : Bytes.toNatBE (toByte (c <<< ((8 - p.len2 * p.lgw % 8) % 8)) ((p.len2 * p.lgw + 7) / 8))
+      = c * 2 ^ ((8 - p.len2 * p.lgw % 8) % 8) := by
+    have := toInt_toByte (c <<< ((8 - p.len2 * p.lgw % 8) % 8)) ((p.len2 * p.lgw + 7) / 8)
+    rw [toInt] at this
+    rw [this, Nat.shiftLeft_eq, pow256, ← hpad, Nat.pow_add]
+    apply Nat.mod_eq_of_lt
+    rw [Nat.mul_comm (2 ^ _)]
+    exact Nat.mul_lt_mul_of_pos_right hc (Nat.two_pow_pos _)
+  rw [hv]
+  apply List.map_congr_left
+  intro j hj
+  have hj : j < p.len2 := List.mem_range.mp hj
+  have e1 : (p.len2 - 1 - j) * p.lgw = p.len2 * p.lgw - (j + 1) * p.lgw := by
+    rw [Nat.sub_sub, Nat.add_comm 1 j, Nat.sub_mul]
+  have e2 : (j + 1) * p.lgw ≤ p.len2 * p.lgw := Nat.mul_le_mul_right _ hj
+  rw [e1]
+  generalize (j + 1) * p.lgw = jb at *
+  generalize p.len2 * p.lgw = T at *
+  have e3 : 8 * ((T + 7) / 8) - jb = (8 - T % 8) % 8 + (T - jb) := by omega
+  rw [e3, shl_div]
+
+
+
+/-- digit-wise `≤` in base `B` implies `≤` of the numbers (below `B^n`) -/
+theorem mod_pow_le_of_digits_le (B x y n : Nat)
+    (h : ∀ j, j < n → x / B ^ j % B ≤ y / B ^ j % B) : x % B ^ n ≤ y % B ^ n := by
+  induction n with
+  | zero => simp [Nat.mod_one]
+  | succ n ih =>
+    rw [Nat.mod_pow_succ, Nat.mod_pow_succ]
+    have h1 := ih (fun j hj => h j (by omega))
+    have h2 := Nat.mul_le_mul_left (B ^ n) (h n (by omega))
+    omega
+
+/-- **No forgery by advancing chains only** (FIPS 205 §5; WOTS⁺ one-wayness argument).
+    Let `msg`, `msg'` be two different `len₁`-digit messages with `msg[i] ≤ msg'[i]` for all `i`
+    (so every message chain of `msg'` could be obtained from the signature of `msg` by hashing
+    forward).  Then some checksum digit of `msg'` is strictly smaller than that of `msg`: that chain
+    would have to be inverted.  `hcap` is the defining property of `len₂` (`len₁(w−1) < w^len₂`). -/
+theorem wots_checksum_blocks_forward_forgery (p : WP) (msg msg' : List Nat)
+    (hlen : msg.length = msg'.length)
+    (hle : ∀ i (h : i < msg.length) (h' : i < msg'.length), msg[i] ≤ msg'[i])
+    (hw : ∀ d ∈ msg', d < p.w) (hne : msg ≠ msg')
+    (hcap : msg.length * (p.w - 1) < 2 ^ (p.len2 * p.lgw)) :
+    ∃ j, j < p.len2 ∧ (checksumDigits p msg').getD j 0 < (checksumDigits p msg).getD j 0 := by
+  have hlt := csum_strict_anti p.w msg msg' hlen hle hw hne
+  have hc : csum p.w msg < 2 ^ (p.len2 * p.lgw) := Nat.lt_of_le_of_lt (csum_le _ _) hcap
+  have hc' : csum p.w msg' < 2 ^ (p.len2 * p.lgw) := Nat.lt_trans hlt hc
+  apply Classical.byContradiction
+  intro hcon
+  have hall : ∀ j, j < p.len2 → (checksumDigits p msg).getD j 0 ≤ (checksumDigits p msg').getD j 0 := by
+    intro j hj
+    apply Nat.le_of_not_lt
+    intro h
+    exact hcon ⟨j, hj, h⟩
+  rw [checksumDigits_eq p msg hc, checksumDigits_eq p msg' hc'] at hall
+  have hmod := mod_pow_le_of_digits_le (2 ^ p.lgw) (csum p.w msg) (csum p.w msg') p.len2 (by
+    intro j hj
+    have := hall (p.len2 - 1 - j) (by omega)
+    rw [getD_map_range _ _ _ _ (by omega), getD_map_range _ _ _ _ (by omega)] at this
+    have e : p.len2 - 1 - (p.len2 - 1 - j) = j := by omega
+    rw [e, Nat.mul_comm j, Nat.pow_mul] at this
+    exact this)
+  rw [← Nat.pow_mul, Nat.mul_comm p.lgw, Nat.mod_eq_of_lt hc, Nat.mod_eq_of_lt hc'] at hmod
+  omega
+
+/-! ## 4. Merkle authentication paths -/
+
+theorem xor_one_eq (x : Nat) : x ^^^ 1 = 2 * (x / 2) + (1 - x % 2) := by
+  have hd : (x ^^^ 1) / 2 = x / 2 := by rw [Nat.xor_div_two]; simp
+  have hm : ((x ^^^ 1) % 2 = 1) ↔ ¬ ((x % 2 = 1) ↔ (1 % 2 = 1)) := Nat.xor_mod_two_eq_one
+  have := Nat.div_add_mod (x ^^^ 1) 2
+  rw [hd] at this
+  have h2 := Nat.mod_lt (x ^^^ 1) (by decide : 0 < 2)
+  generalize (x ^^^ 1) % 2 = r at *
+  generalize x ^^^ 1 = y at *
+  omega
+
+/-- the sibling of an even node is the next one, of an odd node the previous one -/
+theorem xor_one_even (i : Nat) : (2 * i) ^^^ 1 = 2 * i + 1 := by rw [xor_one_eq]; omega
+theorem xor_one_odd (i : Nat) : (2 * i + 1) ^^^ 1 = 2 * i := by rw [xor_one_eq]; omega
+
+theorem div_pow_succ (g k : Nat) : g / 2 ^ (k + 1) = g / 2 ^ k / 2 := by
+  rw [Nat.pow_succ, Nat.div_div_eq_div_mul]
+
+/-- the tree below `treeNode` never reads the height/index words of its base address -/
+theorem treeNode_base (H : Adrs → Bytes → Bytes) (leaf : Nat → Bytes) (a : Adrs) (x y i z : Nat) :
+    treeNode H leaf ((a.setTreeHeight x).setTreeIndex y) i z = treeNode H leaf a i z := by
+  induction z generalizing i with
+  | zero => rfl
+  | succ z ih => simp only [treeNode, ih]; rfl
+
+theorem adrs_step (base : Adrs) (hh x k y : Nat) :
+    (((base.setTreeHeight hh).setTreeIndex x).setTreeHeight (k + 1)).setTreeIndex y
+      = (base.setTreeHeight (k + 1)).setTreeIndex y := rfl
+
+theorem adrs_step_idx (base : Adrs) (hh x k : Nat) :
+    (((base.setTreeHeight hh).setTreeIndex x).setTreeHeight (k + 1)).getTreeIndex = x := rfl
+
+/-- **Merkle authentication path, general form** (the loop of Algorithms 11 and 17).
+    Start at level `k` with the node above global leaf `g` (node `g / 2^k`), the address holding that
+    tree index; let the next `cnt` path entries be the siblings `(g / 2^j) ⊕ 1` and let `idx` have the
+    parities of `g` on these levels.  Then the loop arrives at node `g / 2^(k+cnt)` of level `k + cnt`. -/
+theorem climb_treeNode (H : Adrs → Bytes → Bytes) (leaf : Nat → Bytes) (base : Adrs) (idx g : Nat)
+    (auth : List Bytes) (cnt k hh : Nat)
+    (hpar : ∀ j, k ≤ j → j < k + cnt → (idx / 2 ^ j) % 2 = (g / 2 ^ j) % 2)
+    (hauth : ∀ j, k ≤ j → j < k + cnt → auth.getD j [] = treeNode H leaf base ((g / 2 ^ j) ^^^ 1) j) :
+    climb H idx auth cnt k ((base.setTreeHeight hh).setTreeIndex (g / 2 ^ k)) (treeNode H leaf base (g / 2 ^ k) k)
+      = treeNode H leaf base (g / 2 ^ (k + cnt)) (k + cnt) := by
+  induction cnt generalizing k hh with
+  | zero => rfl
+  | succ cnt ih =>
+    have hp := hpar k (Nat.le_refl k) (by omega)
+    have ha := hauth k (Nat.le_refl k) (by omega)
+    have ih' := ih (k + 1) (k + 1)
+      (fun j h1 h2 => hpar j (by omega) (by omega)) (fun j h1 h2 => hauth j (by omega) (by omega))
+    have e : k + (cnt + 1) = k + 1 + cnt := by omega
+    rw [e, ← ih']
+    have hdm := Nat.div_add_mod (g / 2 ^ k) 2
+    have hs := div_pow_succ g k
+    rw [climb]
+    simp only [ha, hp, adrs_step, adrs_step_idx]
+    by_cases hpar0 : g / 2 ^ k % 2 = 0
+    · simp only [hpar0, ↓reduceIte]
+      have hg : g / 2 ^ k = 2 * (g / 2 ^ (k + 1)) := by omega
+      rw [← hs]
+      congr 1
+      rw [treeNode]
+      congr 1
+      rw [hg, xor_one_even]
+    · simp only [hpar0, ↓reduceIte]
+      have hg : g / 2 ^ k = 2 * (g / 2 ^ (k + 1)) + 1 := by omega
+      have e1 : (g / 2 ^ k - 1) / 2 = g / 2 ^ (k + 1) := by omega
+      rw [e1]
+      congr 1
+      rw [treeNode]
+      congr 1
+      rw [hg, xor_one_odd]
+
+/-- **Merkle authentication path** (item 4): recomputing the root from leaf `idx` and its
+    authentication path gives the root, for every height and every `idx < 2^h` -/
+theorem rootFromPath_authPath (H : Adrs → Bytes → Bytes) (leaf : Nat → Bytes) (adrs : Adrs) (h idx : Nat)
+    (hidx : idx < 2 ^ h) :
+    rootFromPath H adrs h (leaf idx) idx (authPath H leaf adrs idx h) = merkleRoot H leaf adrs h := by
+  have := climb_treeNode H leaf adrs idx idx (authPath H leaf adrs idx h) h 0 0
+    (fun _ _ _ => rfl)
+    (fun j _ hj => by rw [authPath, getD_map_range _ _ _ _ (by omega)])
+  simp only [Nat.pow_zero, Nat.div_one, Nat.zero_add, treeNode] at this
+  rw [rootFromPath, merkleRoot, this, Nat.div_eq_of_lt hidx]
+
+/-- without `idx < 2^h` the walk ends at the ancestor `⌊idx / 2^h⌋` of level `h` -/
+theorem rootFromPath_authPath_general (H : Adrs → Bytes → Bytes) (leaf : Nat → Bytes) (adrs : Adrs) (h idx : Nat) :
+    rootFromPath H adrs h (leaf idx) idx (authPath H leaf adrs idx h) = treeNode H leaf adrs (idx / 2 ^ h) h := by
+  have := climb_treeNode H leaf adrs idx idx (authPath H leaf adrs idx h) h 0 0
+    (fun _ _ _ => rfl)
+    (fun j _ hj => by rw [authPath, getD_map_range _ _ _ _ (by omega)])
+  simp only [Nat.pow_zero, Nat.div_one, Nat.zero_add, treeNode] at this
+  rw [rootFromPath, this]
+
+/-! ### XMSS (§6) -/
+
+/-- `xmss_node` is the generic tree over the WOTS⁺ public keys -/
+theorem xmssNode_eq_treeNode (th : TH) (p : WP) (skSeed : Bytes) (adrs : Adrs) (i z : Nat) :
+    xmssNode th p skSeed i z adrs =
+      treeNode th.H (fun i => wotsPkGen th p skSeed ((adrs.setTypeAndClear WOTS_HASH).setKeyPairAddress i))
+        (adrs.setTypeAndClear TREE) i z := by
+  induction z generalizing i with
+  | zero => rfl
+  | succ z ih => simp only [xmssNode, treeNode, ih]
+
+/-- **XMSS correctness** (Algorithms 9–11): the public key recomputed from a genuine XMSS signature of
+    leaf `idx < 2^h'` is the root `xmss_node(0, h')` -/
+theorem xmssPkFromSig_sign (th : TH) (p : WP) (hp : Nat) (m skSeed : Bytes) (idx : Nat) (adrs : Adrs)
+    (hidx : idx < 2 ^ hp) :
+    xmssPkFromSig th p hp idx (xmssSign th p hp m skSeed idx adrs) m adrs = xmssNode th p skSeed 0 hp adrs := by
+  simp only [xmssPkFromSig, xmssSign, wotsPkFromSig_sign]
+  have := climb_treeNode th.H
+    (fun i => wotsPkGen th p skSeed ((adrs.setTypeAndClear WOTS_HASH).setKeyPairAddress i))
+    (adrs.setTypeAndClear TREE) idx idx
+    ((List.range hp).map fun j => xmssNode th p skSeed ((idx / 2 ^ j) ^^^ 1) j adrs) hp 0 0
+    (fun _ _ _ => rfl)
+    (fun j _ hj => by rw [getD_map_range _ _ _ _ (by omega), xmssNode_eq_treeNode])
+  simp only [Nat.pow_zero, Nat.div_one, Nat.zero_add, treeNode, Nat.div_eq_of_lt hidx] at this
+  rw [xmssNode_eq_treeNode]
+  exact this
+
+
+/-! ### hypertree (§7) -/
+
+/-- the verification loop over the layers `j … j+cnt` applied to what the signing loop produced ends
+    at the root of the XMSS tree of layer `j + cnt` that contains the path -/
+theorem htVerifyLoop_sign (th : TH) (p : WP) (hp : Nat) (skSeed : Bytes) (cnt : Nat) :
+    ∀ (j : Nat) (node : Bytes) (idxTree : Nat) (adrs : Adrs) (sigs : List XmssSig),
+      (∀ t, t < cnt + 1 → sigs.getD (j + t) default
+          = (htSignLoop th p hp skSeed (cnt + 1) j node idxTree adrs).getD t default) →
+      htVerifyLoop th p hp sigs (cnt + 1) j node idxTree adrs
+        = xmssNode th p skSeed 0 hp
+            ((adrs.setLayerAddress (j + cnt)).setTreeAddress (idxTree >>> (hp * (cnt + 1)))) := by
+  induction cnt with
+  | zero =>
+    intro j node idxTree adrs sigs hs
+    have h0 := hs 0 (by omega)
+    simp only [htSignLoop, Nat.add_zero, List.getD_cons_zero] at h0
+    simp only [htVerifyLoop, h0, Nat.add_zero, Nat.zero_add, Nat.mul_one]
+    exact xmssPkFromSig_sign th p hp node skSeed _ _ (Nat.mod_lt _ (Nat.two_pow_pos hp))
+  | succ cnt ih =>
+    intro j node idxTree adrs sigs hs
+    have h0 := hs 0 (by omega)
+    rw [htSignLoop] at h0 hs
+    simp only [Nat.add_zero, List.getD_cons_zero] at h0
+    have hx := xmssPkFromSig_sign th p hp node skSeed (idxTree % 2 ^ hp)
+      ((adrs.setLayerAddress j).setTreeAddress (idxTree >>> hp)) (Nat.mod_lt _ (Nat.two_pow_pos hp))
+    rw [htVerifyLoop]
+    simp only [h0, hx]
+    simp only [hx] at hs
+    rw [ih (j + 1) _ (idxTree >>> hp) _ sigs (by
+      intro t ht
+      have := hs (t + 1) (by omega)
+      simp only [List.getD_cons_succ] at this
+      rw [← this]
+      congr 1
+      omega)]
+    congr 1
+    have e1 : j + 1 + cnt = j + (cnt + 1) := by omega
+    have e2 : hp * (cnt + 1 + 1) = hp + hp * (cnt + 1) := by rw [Nat.mul_succ, Nat.add_comm]
+    rw [e1, e2, Nat.shiftRight_add]
+    rfl
+
+/-- **Hypertree correctness** (Algorithms 12–13): `ht_verify` accepts `ht_sign`'s output under the
+    root of the top tree, for every `d`, `h'`, every leaf `< 2^h'` and tree index `< 2^(h'(d−1))` -/
+theorem htVerify_sign (th : TH) (p : WP) (hp d : Nat) (m skSeed : Bytes) (idxTree idxLeaf : Nat)
+    (hleaf : idxLeaf < 2 ^ hp) (htree : idxTree < 2 ^ (hp * (d - 1))) :
+    htVerify th p hp d m (htSign th p hp d m skSeed idxTree idxLeaf) idxTree idxLeaf
+      (xmssNode th p skSeed 0 hp (Adrs.zero.setLayerAddress (d - 1))) = true := by
+  have hx := xmssPkFromSig_sign th p hp m skSeed idxLeaf (Adrs.zero.setTreeAddress idxTree) hleaf
+  simp only [htVerify, htSign, List.getD_cons_zero, hx, beq_iff_eq]
+  cases hd' : d - 1 with
+  | zero =>
+    rw [hd'] at htree
+    have : idxTree = 0 := by simpa using htree
+    subst this
+    rfl
+  | succ c =>
+    rw [hd'] at htree
+    rw [htVerifyLoop_sign th p hp skSeed c 1 _ idxTree _ _ (by
+      intro t ht
+      rw [Nat.add_comm 1 t, List.getD_cons_succ])]
+    rw [Nat.shiftRight_eq_div_pow, Nat.div_eq_of_lt htree, Nat.add_comm 1 c]
+    rfl
+
+
+/-! ### FORS (§8) -/
+
+/-- `fors_node` is the generic tree over the hashed secret values -/
+theorem forsNode_eq_treeNode (th : TH) (skSeed : Bytes) (adrs : Adrs) (i z : Nat) :
+    forsNode th skSeed i z adrs =
+      treeNode th.H (fun i => th.F ((adrs.setTreeHeight 0).setTreeIndex i) (forsSkGen th skSeed adrs i))
+        adrs i z := by
+  induction z generalizing i with
+  | zero => rfl
+  | succ z ih => simp only [forsNode, treeNode, ih]
+
+/-- node index of level `j ≤ a` above leaf `idx` of the `i`-th tree of a forest of height-`a` trees -/
+theorem fors_index (i idx a j : Nat) (hj : j ≤ a) :
+    (i * 2 ^ a + idx) / 2 ^ j = i * 2 ^ (a - j) + idx / 2 ^ j := by
+  have : 2 ^ a = 2 ^ (a - j) * 2 ^ j := by rw [← Nat.pow_add]; congr 1; omega
+  rw [this, ← Nat.mul_assoc, Nat.add_comm, Nat.add_mul_div_right _ _ (Nat.two_pow_pos j), Nat.add_comm]
+
+theorem even_add_xor_one (e y : Nat) : (2 * e + y) ^^^ 1 = 2 * e + (y ^^^ 1) := by
+  rw [xor_one_eq, xor_one_eq y]; omega
+
+/-- **FORS correctness** (Algorithms 14–17): the public key recomputed from a genuine FORS signature is
+    `T_k` of the `k` tree roots, for every `md`, `k`, `a` -/
+theorem forsPkFromSig_sign (th : TH) (a k : Nat) (md skSeed : Bytes) (adrs : Adrs) :
+    forsPkFromSig th a k (forsSign th a k md skSeed adrs) md adrs = forsPk th a k skSeed adrs := by
+  simp only [forsPkFromSig, forsPk, forsSign]
+  congr 2
+  apply List.map_congr_left
+  intro i hi
+  have hi : i < k := List.mem_range.mp hi
+  rw [getD_map_range _ _ _ _ hi]
+  simp only []
+  have hidx : (base2b md a k).getD i 0 < 2 ^ a := by
+    rw [List.getD_eq_getElem?_getD]
+    cases h : (base2b md a k)[i]? with
+    | none => exact Nat.two_pow_pos _
+    | some d => exact base2b_digit_lt _ _ _ d (List.mem_of_getElem? h)
+  generalize (base2b md a k).getD i 0 = idx at hidx
+  have := climb_treeNode th.H
+    (fun i => th.F ((adrs.setTreeHeight 0).setTreeIndex i) (forsSkGen th skSeed adrs i))
+    adrs idx (i * 2 ^ a + idx)
+    ((List.range a).map fun j => forsNode th skSeed (i * 2 ^ (a - j) + ((idx / 2 ^ j) ^^^ 1)) j adrs) a 0 0
+    (fun j _ hj => by
+      have hj : j < a := by omega
+      rw [fors_index i idx a j (by omega)]
+      have : 2 ^ (a - j) = 2 * 2 ^ (a - j - 1) := by
+        rw [Nat.mul_comm, ← Nat.pow_succ]; congr 1; omega
+      rw [this]
+      generalize 2 ^ (a - j - 1) = e
+      generalize idx / 2 ^ j = y
+      rw [← Nat.mul_assoc, Nat.mul_comm i 2, Nat.mul_assoc, Nat.mul_add_mod])
+    (fun j _ hj => by
+      have hj : j < a := by omega
+      rw [getD_map_range _ _ _ _ hj, forsNode_eq_treeNode, fors_index i idx a j (by omega)]
+      have : 2 ^ (a - j) = 2 * 2 ^ (a - j - 1) := by
+        rw [Nat.mul_comm, ← Nat.pow_succ]; congr 1; omega
+      rw [this, ← Nat.mul_assoc, Nat.mul_comm i 2, Nat.mul_assoc, even_add_xor_one])
+  simp only [Nat.pow_zero, Nat.div_one, Nat.zero_add, treeNode] at this
+  rw [forsNode_eq_treeNode, this, fors_index i idx a a (Nat.le_refl a), Nat.sub_self, Nat.pow_zero, Nat.mul_one,
+    Nat.div_eq_of_lt hidx, Nat.add_zero]
+
+/-! ### SLH-DSA (§9) -/
+
+/-- **SLH-DSA correctness** (Algorithms 18–20) over abstract hash functions: for every message, every
+    secret key, every randomizer and every parameter choice with `h − h' = h'·(d − 1)` (true for
+    `h' = h/d`), `slh_verify_internal` accepts the output of `slh_sign_internal` under the public
+    key of `slh_keygen_internal`. -/
+theorem slhVerify_sign (th : TH) (Hmsg PRFmsg : Bytes → Bytes → Bytes → Bytes) (p : SP)
+    (msg skSeed skPrf optRand : Bytes) (hh : p.h - p.hp = p.hp * (p.d - 1)) :
+    slhVerify th Hmsg p msg (slhSign th Hmsg PRFmsg p msg skSeed skPrf (pkRoot th p skSeed) optRand)
+      (pkRoot th p skSeed) = true := by
+  simp only [slhVerify, slhSign, digestSplit, pkRoot]
+  apply htVerify_sign
+  · exact idxLeaf_lt _ _
+  · rw [← hh]; exact idxTree_lt _ _ _
+
+/-! ## 6. FIPS 205 Table 2: the twelve parameter sets satisfy the side conditions used above -/
+
+/-- the structural parameters of a `Prim/Slhdsa.lean` parameter set -/
+def SP.ofParams (p : Prim.Slhdsa.Params) : SP :=
+  { wp := { lgw := p.lgw, len1 := p.len1, len2 := p.len2 }, h := p.h, d := p.d, hp := p.hp, a := p.a, k := p.k }
+
+/-- digest split: `m = ⌈k·a/8⌉ + ⌈(h−h')/8⌉ + ⌈h'/8⌉` is the `m` of Table 2 -/
+theorem table2_digest_length : ∀ p ∈ Prim.Slhdsa.allParams,
+    (p.k * p.a + 7) / 8 + (p.h - p.hp + 7) / 8 + (p.hp + 7) / 8 = p.m := by decide
+
+/-- the same through the reference's names, and the abstract split lengths are the reference's -/
+theorem table2_mDerived : ∀ p ∈ Prim.Slhdsa.allParams,
+    p.mDerived = p.m ∧ (SP.ofParams p).mdLen = p.mdLen ∧ (SP.ofParams p).treeIdxLen = p.treeIdxLen
+      ∧ (SP.ofParams p).leafIdxLen = p.leafIdxLen := by decide
+
+/-- `h = d·h'`, in the form `slhVerify_sign` needs -/
+theorem table2_height : ∀ p ∈ Prim.Slhdsa.allParams,
+    p.h = p.d * p.hp ∧ (SP.ofParams p).h - (SP.ofParams p).hp = (SP.ofParams p).hp * ((SP.ofParams p).d - 1) := by
+  decide
+
+/-- WOTS⁺: `len₁·lg_w = 8n` (the `n`-byte message holds exactly the `len₁` digits, so `base2b_eq_spec`
+    applies), `len₂ = 3`, and `len₁(w−1) < w^len₂` (the checksum fits, as
+    `wots_checksum_blocks_forward_forgery` needs) -/
+theorem table2_wots : ∀ p ∈ Prim.Slhdsa.allParams,
+    p.len1 * p.lgw = 8 * p.n ∧ p.len2 = 3 ∧ p.len1 * (p.w - 1) < 2 ^ (p.len2 * p.lgw) := by
+  decide +kernel
+
+/-- FORS indices / WOTS⁺ message digits: with an input of `⌈outLen·b/8⌉` bytes the loop is the
+    specification -/
+theorem base2b_eq_spec_ceil (x : Bytes) (b outLen : Nat) (h : x.length = (outLen * b + 7) / 8) :
+    base2b x b outLen = base2bSpec x b outLen :=
+  base2b_eq_spec x b outLen (by omega)
+
+/-! ## 7. non-vacuity: a toy instantiation -/
+
+/-- a toy hash family (each function mixes all address words into the data) -/
+def toyMix (c : Nat) (a : Adrs) (x : Bytes) : Bytes :=
+  [UInt8.ofNat (c + a.layer + 3 * a.tree + 5 * a.typ + 7 * a.w1 + 11 * a.w2 + 13 * a.w3 + x.length),
+   (x.foldl (fun acc y => acc * 31 + y) 17)]
+
+def toyTH : TH := { PRF := toyMix 1, F := toyMix 2, H := toyMix 3, T := toyMix 4 }
+def toyWP : WP := { lgw := 2, len1 := 4, len2 := 2 }
+def toySP : SP := { wp := toyWP, h := 4, d := 2, hp := 2, a := 2, k := 2 }
+def toyHmsg (r pk m : Bytes) : Bytes := (toyMix 5 {} (r ++ pk ++ m)) ++ (toyMix 6 {} (m ++ r))
+def toyPRFmsg (k o m : Bytes) : Bytes := toyMix 7 {} (k ++ o ++ m)
+
+-- 1. `base2b_eq_spec`: the hypothesis is satisfiable
+example : base2b [0xAB, 0xCD, 0xEF, 0x01, 0x23] 9 4 = base2bSpec [0xAB, 0xCD, 0xEF, 0x01, 0x23] 9 4 :=
+  base2b_eq_spec _ _ _ (by decide)
+-- 2. chains really iterate, and a WOTS⁺ signature does not verify for another message
+example : chain toyTH.F [1] 0 3 {} = [30, 30] := by decide
+example : chain toyTH.F (chain toyTH.F [1] 0 1 {}) 1 2 {} = chain toyTH.F [1] 0 3 {} := chain_add _ _ _ _ _ _
+example : wotsDigits toyWP [0x1B] = [0, 1, 2, 3, 1, 2] := by decide
+example : wotsPkFromSig toyTH toyWP (wotsSign toyTH toyWP [0x1B] [9] {}) [0x1B] {} = wotsPkGen toyTH toyWP [9] {} :=
+  wotsPkFromSig_sign _ _ _ _ _
+example : wotsPkFromSig toyTH toyWP (wotsSign toyTH toyWP [0x1B] [9] {}) [0x1C] {} ≠ wotsPkGen toyTH toyWP [9] {} := by
+  decide
+-- 3. checksum: hypotheses satisfiable; the conclusion for a concrete pair
+example : csum 4 [1, 3, 2, 3] < csum 4 [1, 2, 2, 3] :=
+  csum_strict_anti 4 [1, 2, 2, 3] [1, 3, 2, 3] rfl (by decide) (by decide) (by decide)
+example : ∃ j, j < toyWP.len2 ∧
+    (checksumDigits toyWP [1, 3, 2, 3]).getD j 0 < (checksumDigits toyWP [1, 2, 2, 3]).getD j 0 :=
+  wots_checksum_blocks_forward_forgery toyWP [1, 2, 2, 3] [1, 3, 2, 3] rfl (by decide) (by decide) (by decide)
+    (by decide)
+example : checksumDigits toyWP [1, 2, 2, 3] = [1, 0] ∧ checksumDigits toyWP [1, 3, 2, 3] = [0, 3] := by decide
+-- 4. Merkle: a height-3 tree, leaf 5
+example : rootFromPath toyTH.H {} 3 [5] 5 (authPath toyTH.H (fun i => [UInt8.ofNat i]) {} 5 3)
+    = merkleRoot toyTH.H (fun i => [UInt8.ofNat i]) {} 3 :=
+  rootFromPath_authPath _ _ _ _ _ (by decide)
+example : rootFromPath toyTH.H {} 3 [6] 5 (authPath toyTH.H (fun i => [UInt8.ofNat i]) {} 5 3)
+    ≠ merkleRoot toyTH.H (fun i => [UInt8.ofNat i]) {} 3 := by decide
+-- 5. the whole scheme on the toy parameters: the side condition of `slhVerify_sign` holds …
+example : slhVerify toyTH toyHmsg toySP [1, 2, 3]
+    (slhSign toyTH toyHmsg toyPRFmsg toySP [1, 2, 3] [7] [8] (pkRoot toyTH toySP [7]) [9]) (pkRoot toyTH toySP [7]) = true :=
+  slhVerify_sign _ _ _ _ _ _ _ _ (by decide)
+
 end TinkVerif.SlhStruct
+
+section AxiomAudit
+open TinkVerif.Slh TinkVerif.SlhStruct
+#print axioms base2bLoop_eq
+#print axioms base2b_eq_spec
+#print axioms base2b_eq_spec_ceil
+#print axioms chain_add
+#print axioms wotsPkFromSigDigits_signDigits
+#print axioms wotsPkFromSig_sign
+#print axioms csum_le
+#print axioms csum_strict_anti
+#print axioms checksumDigits_eq
+#print axioms wots_checksum_blocks_forward_forgery
+#print axioms climb_treeNode
+#print axioms rootFromPath_authPath
+#print axioms rootFromPath_authPath_general
+#print axioms xmssPkFromSig_sign
+#print axioms htVerify_sign
+#print axioms forsPkFromSig_sign
+#print axioms slhVerify_sign
+#print axioms table2_digest_length
+#print axioms table2_mDerived
+#print axioms table2_height
+#print axioms table2_wots
+end AxiomAudit
